@@ -12,7 +12,15 @@ def run(ctx):
     real = c13real.run_real(ctx)
     viol += real["violations"]
     ctx.log("c13 (real poller over a unix socket, private /run): %s" % {k: v for k, v in real.items() if k not in ("violations", "samples")})
-    inconclusive = incon or real.get("inconclusive")
+    scripts = [[[3.2, "answer"], [8.5, "absent"], [3.2, "unsync"], [3.0, "answer"]]]
+    if not q:
+        scripts += [[[2.8, "absent"], [3.5, "answer"], [3.0, "absent"], [3.0, "answer"], [9.0, "absent"]], [[4.0, "answer"], [4.0, "unsync"], [8.0, "absent"], [4.0, "unsync"]], [[3.0, "unsync"], [3.0, "answer"], [12.0, "absent"]]]
+    tl_judged, tl_viol, tl_samples, tl_incon = c13real.run_timelines(ctx, scripts)
+    viol += tl_viol
+    ctx.log("c13 (whole release binary + chronyd stand-in, real time): %d status samples judged in %d timelines" % (tl_judged, len(scripts)))
+    inconclusive = incon or real.get("inconclusive") or tl_incon
+    if not inconclusive and tl_judged < 30:
+        inconclusive = "whole-binary timelines yielded only %d judged samples" % tl_judged
     if agg["shards_lost"]:
         inconclusive = "%d shards did not finish" % agg["shards_lost"]
     else:
@@ -24,10 +32,11 @@ def run(ctx):
         "distinct_nontrivial": agg["distinct"] + real.get("distinct", 0),
         "rule": "(mock level) C01's world with a PHC always configured: per poll the class of the message delivered by the real poller loop must follow the model — no answer: FreeRunning-class iff the last answer is less than 5 s old when the poller asks, Unknown-class otherwise (right after start: Unknown-class); "
                 "answer: a measurement, carrying the PHC file's value iff the configured reference id equals the report's (ids equal / one bit off / 0 / random), 0 otherwise; PHC is the reference but unreadable: a non-measurement outcome and the published (bound, as_of) unchanged. "
-                "(real poller) the real ClockErrorBoundPoller over a real unix datagram socket to a scripted in-process chronyd inside a private mount namespace, virtual Instant: silences at 5 s -/+ 1 ns after the last good answer, at start-up, after long gaps, socket vanished (fast) and silent (3 real 1 s timeouts, thorough). distinct_nontrivial = distinct history seeds + distinct real-poller scripts",
+                "(real poller) the real ClockErrorBoundPoller over a real unix datagram socket to a scripted in-process chronyd inside a private mount namespace, virtual Instant: silences at 5 s -/+ 1 ns after the last good answer, at start-up, after long gaps, socket vanished (fast) and silent (3 real 1 s timeouts, thorough). (whole binary) the release `clockbound` and a chronyd stand-in in a private /run, real time: the status of the real segment sampled every 100 ms must follow answer -> Synchronized, chronyd gone -> FreeRunning, then Unknown 5 s after the last answer, unsynchronised -> FreeRunning; judged only >= 1.2 s away from each expected transition. distinct_nontrivial = distinct history seeds + distinct real-poller scripts",
         "samples": samples[:2] + real.get("samples", [])[:2],
         "outcomes_by_kind": kinds,
         "real_poller": {k: v for k, v in real.items() if k not in ("violations", "samples")},
+        "whole_binary_timelines": {"scripts": len(scripts), "status_samples_judged": tl_judged, "observed": tl_samples},
     }
     finish(ctx, coverage, viol, inconclusive, assumptions=["mock level: the grace flag is computed by the harness as the real poller would; the real-poller runs compute it with the real Instant logic"])
 
